@@ -47,6 +47,11 @@ COLLISIONS = [
     ("module-less-file-empty", ["", "module A\nstruct S { x: bool }\n", "module B\nstruct T { s: A::S }\n"]),
     ("module-less-file-comment", ["// nothing here\n/* at all */\n", "module A\nstruct S { x: bool }\n", "module B\ninterface I { op(s: A::S) }\n"]),
     ("module-less-files-two", ["", "module A\nstruct S { x: bool }\n", "#if X\nmodule Hidden\n#endif\n", "module B\nstruct T { s: A::S }\n"]),
+    # an inheritance loop next to an interface that derives from one of its members; no operations, so that only the loop is at fault
+    ("inheritance-loop-with-outsider", ["module A\ninterface Derived : B::X {}\n", "module B\ninterface X : Y {}\ninterface Y : X {}\n", "module C\ncustom K\n"]),
+    ("inheritance-loop-3-with-outsiders", ["module A\ninterface D1 : B::X {}\ninterface D2 : B::Z {}\n", "module B\ninterface X : Y {}\n", "module B\ninterface Y : Z {}\ninterface Z : X {}\n"]),
+    ("containment-cycle-with-outsider", ["module A\nstruct Holder { x: B::X }\n", "module B\nstruct X { y: Y? }\n", "module B\nstruct Y { x: X }\n"]),
+    ("alias-loop-with-outsider", ["module A\ntypealias Out = Sequence<B::P>\nstruct U { o: Out }\n", "module B\ntypealias P = Sequence<Q>\n", "module B\ntypealias Q = Sequence<P>\n"]),
     ("operation-vs-parameter-scope", ["module A\ninterface I { op(op: bool) -> (op: bool, r: bool) }\n", "module A\n/// {@link I::op}\nstruct L {}\n"]),
 ]
 
@@ -92,7 +97,8 @@ def summarize(obs, schema):
     return accepted, files, warnings, errors
 
 
-def check_program(ctx, root, n, texts, family, schema, valid_expected=None):
+def check_program(ctx, root, n, texts, family, schema, valid_expected=None, dups=()):
+    """dups: indices of files that are listed once more each (the same spelling), so that every arrangement holds repeats."""
     case_dir = os.path.join(root, "p%d" % n)
     os.makedirs(case_dir)
     names = []
@@ -105,7 +111,7 @@ def check_program(ctx, root, n, texts, family, schema, valid_expected=None):
     os.symlink(ctx.paths["fakegen"], gen_path)
     k = len(texts)
     rng = ctx.rng("p/%s/%d" % (family, n))
-    base_order = list(range(k))
+    base_order = list(range(k)) + list(dups)
     all_src = [True] * k
     replay = {"kind": "binary", "files": dict(zip(names, texts)), "family": family}
     ctx.note_case((family, tuple(texts)))
@@ -141,7 +147,7 @@ def check_program(ctx, root, n, texts, family, schema, valid_expected=None):
             ctx.stats["generated_program_rejected"] += 1     # decided by C02/C04
         ctx.stats["accepted_programs" if base[0] else "rejected_programs"] += 1
         # (b) permutations x source/reference assignments
-        perms = list(itertools.permutations(range(k)))
+        perms = sorted(set(itertools.permutations(base_order)))
         splits = [s for s in itertools.product([True, False], repeat=k) if any(s)]
         combos = [(p, s) for p in perms for s in splits]
         rng.shuffle(combos)
@@ -199,6 +205,15 @@ def run_shard(ctx, spec):
             if i % n == idx:
                 check_program(ctx, root, i, texts, "collision/" + name, schema)
                 ctx.stats["collision_families"] += 1
+    elif spec[0] == "duplicates":
+        # the same file listed more than once, adjacent or not, among sources or references: every arrangement is accepted alike,
+        # transmits the same files and reports the same DuplicateFile warnings
+        picks = [("reopened-modules", (0,)), ("reopened-modules", (1, 1)), ("cross-file-aliases", (1,)), ("deprecated-across-files", (0, 2)),
+                 ("cross-file-bases", (2,)), ("shadowing-across-files", (0,))]
+        table = dict(COLLISIONS)
+        for i, (name, dups) in enumerate(picks):
+            check_program(ctx, root, 1000 + i, table[name], "duplicates/" + name, schema, dups=dups)
+            ctx.stats["duplicate_listing_families"] += 1
     else:
         _, count, idx = spec
         rng = ctx.rng("gen/%d" % idx)
@@ -221,7 +236,7 @@ def run_shard(ctx, spec):
 
 def plan(tier, seed):
     n = 400 if tier == "quick" else 4000
-    return [("collisions", i, 8) for i in range(8)] + [("generated", n // 16, i) for i in range(16)]
+    return [("collisions", i, 8) for i in range(8)] + [("generated", n // 16, i) for i in range(16)] + [("duplicates", 0)]
 
 
 def main(tier, seed):
